@@ -144,6 +144,49 @@ def analyse_run(ctx, sc, cfg, res, label):
     ref_pos = {pipeline.gname(g): j for j, g in enumerate(sc.ref_genes)}
     qpos = {pipeline.gname(g): j for j, g in enumerate(sc.query_genes)}
     mg = out.get('marker_genes', {})
+    # ---------------- C08 at run level: the genes reported for every branching parent of the reduced tree are
+    # the parent's listed markers that occur in the query, patched with its ancestors' lists (nearest first,
+    # finally the root's) only while fewer than the CONFIGURED minimum remain -- computed from the table
+    if not cfg['flatten']:
+        Q = {pipeline.gname(g) for g in sc.query_genes}
+        m_min = ta['min_markers']
+        up = {}
+        for li in range(len(rmodel) - 1):
+            for x, kids_ in rmodel[li]:
+                for c_ in kids_:
+                    up[(li + 1, c_)] = (li, x)
+
+        def tb(key_):
+            v = sc.markers.get(key_)
+            return None if v is None else {pipeline.gname(g) for g in v}
+        branching = [(None, [x for x, _ in rmodel[0]])] + [((li, x), kids_) for li in range(len(rmodel) - 1) for x, kids_ in rmodel[li]]
+        for par, kids_ in branching:
+            if len(kids_) < 2:
+                continue
+            key_ = 'None' if par is None else f'{rlevels[par[0]]}/{gt.name(par[1])}'
+            own = tb(key_) or set()
+            want_g = own & Q
+            if par is not None and len(want_g) < m_min:
+                new_, patched, cur = set(own), False, par
+                while cur in up:
+                    cur = up[cur]
+                    a_ = tb(f'{rlevels[cur[0]]}/{gt.name(cur[1])}')
+                    if a_ is None:
+                        continue
+                    new_ |= a_
+                    patched = True
+                    if len(new_ & Q) >= m_min:
+                        break
+                if len(new_ & Q) < m_min and tb('None') is not None:
+                    new_ |= tb('None')
+                    patched = True
+                if patched:
+                    want_g = new_ & Q
+            got_g = mg.get(key_)
+            if got_g is None or set(got_g) != want_g or len(set(got_g)) != len(got_g):
+                problems.append(('property', f'parent {key_}: the run reports the genes {sorted(got_g) if got_g is not None else None}; '
+                                 f'the marker table, the query and min_markers={m_min} imply {sorted(want_g)}', 'c08-run-genes-differ-from-spec'))
+            ctx.dist('run_parent_markers', 'patched' if want_g != (own & Q) else 'own')
     # ---------------- per cell, per level of the reduced tree
     cases, meta = [], []
     for ci, r in enumerate(results):
@@ -187,6 +230,20 @@ def analyse_run(ctx, sc, cfg, res, label):
                     leaves = [trees.GenTree.num(x) for x in nev['leaves']]
                     if leaves != sorted(leaves):
                         problems.append(('corr', f'reference rows {leaves} are not the sorted leaves', 'corr:Vote.assemble'))
+                    # the leaves below the parent, and the child owning each, from the tree itself
+                    own_of = {}
+                    for kid in kids:
+                        front = [kid]
+                        for lj in range(li, len(rmodel) - 1):
+                            cm = dict((x, c_) for x, c_ in rmodel[lj])
+                            front = [g_ for x in front for g_ in cm[x]]
+                        for lf in front:
+                            own_of[lf] = kid
+                    got_own = [trees.GenTree.num(x) for x in nev['types']]
+                    if leaves != sorted(own_of) or got_own != [own_of.get(lf) for lf in leaves]:
+                        problems.append(('property', f'cell {r["cell_id"]} level {lv}: the vote at {mkey} compared the cell with leaves {leaves} '
+                                         f'owned by {got_own}; the leaves below that node are {sorted(own_of)} owned by '
+                                         f'{[own_of[lf] for lf in sorted(own_of)]}', 'c02-reference-rows'))
                     refs = [[int(round(sc.means[lf][int(g[1:])] * SCALE)) for g in genes] for lf in leaves]
                     owners = [trees.GenTree.num(x) for x in nev['types']]
                     votes_w = p * iters
@@ -397,6 +454,10 @@ SPECIAL = [
     # a level dropped AND the rest flattened: the root must still pool every list of the table
     ([[2], [2, 2], [2, 2, 2, 2]], None, dict(flatten=True, drop_level='L1')),
     ([[2], [2, 3]], None, dict(flatten=True, drop_level='L0')),
+    # every node with >= 2 children shares its name with one of its children (names are unique
+    # within a level only): what is a leaf must be decided by the level, never by the name
+    ([[2], [3, 2]], 12, dict(flatten=False, drop_level=None, _collide=True)),
+    ([[2], [2, 2], [2, 3, 2, 2]], 14, dict(flatten=False, drop_level=None, _collide=True)),
 ]
 
 
@@ -407,7 +468,9 @@ def run_batch(ctx, n_runs, prefixes, label, max_levels=4, max_leaves=8, raise_is
     for k in range(n_runs):
         if k < len(SPECIAL):
             shape, ncell, over = SPECIAL[k]
-            sc = pipeline.gen_scenario(rng, tree=trees.build(shape, rng), n_cells=ncell)
+            over = dict(over)
+            collide = over.pop('_collide', False)
+            sc = pipeline.gen_scenario(rng, tree=trees.build(shape, rng, collide=collide), n_cells=ncell)
             var = gen_config_variation(rng, sc)
             var.update(over)
             if over.get('flatten') and over.get('drop_level'):
